@@ -132,6 +132,8 @@ var stablePkgs = map[string]bool{
 	"strconv": true, "unicode/utf8": true, "sort": true, "bytes": true, "errors": false,
 	"strings": true, "math": true, "math/bits": true, "internal/bytealg": false, "unicode/utf16": true,
 	"internal/stringslite": true, "slices": true, "cmp": true, "internal/itoa": true,
+	// sentinel errors (io.EOF, bufio.ErrTooLong, ...) must exist: a nil io.EOF makes readers loop
+	"io": true, "bufio": true, "unicode": true,
 }
 
 func baseConfig(tier string, seed int64, opts map[string]int, params map[string]int) *interp.Config {
@@ -674,7 +676,7 @@ func cmdCheck(args []string) {
 		// --- paths that exhausted the budget: for termination / complexity
 		// properties the native run of the same input is the judge (it fails its
 		// own assertion, overflows the stack, or does not finish in time)
-		if opts["bound_replay"] == 1 && len(ex.BoundPaths) > 0 {
+		if br, set := opts["bound_replay"]; (!set || br == 1) && len(ex.BoundPaths) > 0 {
 			var bvecs [][][2]interface{}
 			for _, bp := range ex.BoundPaths {
 				if len(bvecs) < 6 {
